@@ -11,7 +11,6 @@ mod print;
 mod report;
 mod scenario;
 mod ser;
-mod threads;
 
 use serde_json::Value as J;
 use std::io::{BufRead, BufReader};
@@ -180,42 +179,6 @@ fn run(args: &[String]) -> Result<i32, String> {
             std::fs::write(trace, lines).map_err(|e| e.to_string())?;
             println!("recorded {} evaluations ({} panics)", recs.len(), panics.len());
             Ok(0)
-        }
-        Some("threads") => {
-            // conform threads <cases> <n_threads> <n_evals> <trace.ndjson> <report.json>
-            let input = args.get(2).ok_or("cases")?;
-            let n_threads: usize = args.get(3).ok_or("n_threads")?.parse().map_err(|_| "n_threads")?;
-            let n_evals: usize = args.get(4).ok_or("n_evals")?.parse().map_err(|_| "n_evals")?;
-            let trace = args.get(5).ok_or("trace path")?;
-            let out = args.get(6).ok_or("report path")?;
-            let mut seen = std::collections::BTreeSet::new();
-            let mut rulesets: Vec<J> = Vec::new();
-            for_each_case(input, |c| {
-                let k = format!("{}{}", c["env"], c["rules"]);
-                if seen.insert(k) {
-                    rulesets.push(c.clone());
-                }
-            })?;
-            let mut rep = report::Report::default();
-            let mut lines = String::new();
-            for case in &rulesets {
-                for mode in ["tokio", "std"] {
-                    let r = threads::run_case(case, n_threads, n_evals, mode)?;
-                    rep.evaluations += r.evaluations;
-                    for m in r.mismatches {
-                        rep.mismatch("threads:outcomes", m);
-                    }
-                    for rec in r.records {
-                        rep.case_ok(true, || serde_json::json!({"evaluation": rec["id"], "mode": rec["mode"], "calls": rec["calls"]}));
-                        lines.push_str(&serde_json::to_string(&rec).unwrap());
-                        lines.push('\n');
-                    }
-                }
-            }
-            std::fs::write(trace, lines).map_err(|e| e.to_string())?;
-            std::fs::write(out, serde_json::to_string(&rep.to_json()).unwrap()).map_err(|e| e.to_string())?;
-            println!("{} rulesets, {} concurrent evaluations, {} mismatches", rulesets.len(), rep.evaluations, rep.mismatch_count);
-            Ok(if rep.mismatch_count > 0 { 1 } else { 0 })
         }
         _ => Err("usage: conform selftest | replay <engine> <cases> <report.json>".into()),
     }
